@@ -5,3 +5,10 @@ import XPathV.Theorems.C03
 #print axioms XPathV.Theorems.C03.group_positions_global
 #print axioms XPathV.Theorems.C03.child_pos_is_proximity
 #print axioms XPathV.Theorems.C03.nth_child
+#print axioms XPathV.Theorems.C03.C03_main
+#print axioms XPathV.Theorems.C03.C03_on_naturals
+#print axioms XPathV.Theorems.C03.C03_then_boolean_predicates
+#print axioms XPathV.Theorems.C03.C03_flat_input_exact
+#print axioms XPathV.Theorems.C03.C03_parenthesised_nth
+#print axioms XPathV.Theorems.C03.C03_position_last
+#print axioms XPathV.Theorems.C03.C03_side_conditions_satisfiable
